@@ -112,11 +112,50 @@ func e2Simplify(ns []*e2Node) []*e2Node {
 		case "fail":
 			out = append(out, n)
 			return out
+		case "slot":
+			// a byte-slice literal []byte{a, b, c} written at once is three one-byte slots
+			if parts := literalParts(n); parts != nil {
+				for _, p := range parts {
+					out = append(out, &e2Node{kind: "slot", w: "1", f: p, pos: n.pos})
+				}
+				continue
+			}
+			out = append(out, n)
 		default:
 			out = append(out, n)
 		}
 	}
 	return out
+}
+
+// literalParts: the element sources of a slot that came from a byte-slice literal of as many elements as its width
+func literalParts(n *e2Node) []string {
+	if n.x != "" {
+		return nil
+	}
+	var k int
+	if _, err := fmt.Sscanf(n.w, "%d", &k); err != nil || fmt.Sprint(k) != n.w || k < 2 || k > 16 {
+		return nil
+	}
+	var parts []string
+	rest := n.f
+	for {
+		i := splitTop(rest, ",")
+		if i < 0 {
+			parts = append(parts, rest)
+			break
+		}
+		parts = append(parts, rest[:i])
+		rest = rest[i+1:]
+	}
+	if len(parts) != k {
+		return nil
+	}
+	for i, p := range parts {
+		// element transforms were rendered as f~xf inside the list
+		parts[i] = p
+	}
+	return parts
 }
 
 // e2Width: total constant width of a slot sequence, or -1
@@ -172,6 +211,26 @@ func e2MergeAlt(a, b []*e2Node) []*e2Node {
 	wa, wb := e2Width(a), e2Width(b)
 	if wa < 0 || wa != wb || wa == 0 {
 		return nil
+	}
+	// zeros written in several pieces (two 8-byte zero words for a missing 16-byte address) are one zero slot of the total width
+	zeroFill := func(ss []*e2Node) bool {
+		if len(ss) < 2 {
+			return false
+		}
+		for _, n := range ss {
+			if n.f != "const:0" || n.x != "" {
+				return false
+			}
+		}
+		return true
+	}
+	if len(sb) == 1 && zeroFill(sa) {
+		sa = []*e2Node{{kind: "slot", w: fmt.Sprint(wa), f: "const:0"}}
+		a = append(append([]*e2Node{}, sa...), a[len(e2Slots(a)):]...)
+	}
+	if len(sa) == 1 && zeroFill(sb) {
+		sb = []*e2Node{{kind: "slot", w: fmt.Sprint(wb), f: "const:0"}}
+		b = append(append([]*e2Node{}, sb...), b[len(e2Slots(b)):]...)
 	}
 	if len(sa) != 1 || len(sb) != 1 {
 		return nil
@@ -1998,10 +2057,61 @@ func e2ExtractWith(c *Ctx, f *ssa.Function, enc bool, subst map[string]string, d
 			}
 		}
 	})
+	// the Lexer may come from an unexported helper that builds it and writes a common prefix (newDUIDBuffer(typ, n)):
+	// the helper's call is the Lexer, and what the helper wrote comes first
+	var prefix []*e2Node
+	if len(x.lex) == 0 && enc && depth < 3 {
+		allInstrs(f, func(in ssa.Instruction) {
+			cl, ok := in.(*ssa.Call)
+			if !ok || len(x.lex) > 0 {
+				return
+			}
+			g := cl.Call.StaticCallee()
+			if g == nil || !inModule(g) || g.Blocks == nil || token.IsExported(g.Name()) || g == f || !isLexerPtr(cl.Type()) || len(cl.Call.Args) != len(g.Params) {
+				return
+			}
+			built := false
+			allInstrs(g, func(i2 ssa.Instruction) {
+				if c2, ok := i2.(*ssa.Call); ok {
+					if sf := c2.Call.StaticCallee(); sf != nil && inUio(sf) && strings.HasPrefix(sf.Name(), "New") && strings.HasSuffix(sf.Name(), "Buffer") {
+						built = true
+					}
+				}
+			})
+			if !built {
+				return
+			}
+			sub := map[string]string{}
+			for j, p := range g.Params {
+				sv, _ := x.srcOf(cl.Call.Args[j])
+				sub[c.Sx().Of(p).String()] = sv
+			}
+			ns, undec := e2ExtractWith(c, g, true, sub, depth+1)
+			x.undec = append(x.undec, undec...)
+			for _, n := range ns {
+				if n.kind != "ret" {
+					prefix = append(prefix, n)
+				}
+			}
+			x.lex[cl] = true
+			n++
+		})
+	}
+	if len(prefix) > 0 {
+		ns := e2Simplify(append(prefix, x.walk(f.Blocks[0], nil)...))
+		x.resolveLocals(ns)
+		e2Canon(ns)
+		return ns, x.undec
+	}
 	if len(x.lex) == 0 && enc {
 		if acc := appendAccumulator(f); acc != nil {
 			x.acc = acc
-			ns := e2Simplify(x.walk(f.Blocks[0], nil))
+			raw := x.walk(f.Blocks[0], nil)
+			if lit := accLiteral[f]; lit != nil {
+				w, fl, xf := x.bytesSrc(lit)
+				raw = append([]*e2Node{{kind: "slot", w: w, f: fl, x: xf, pos: x.c.P.pos(f.Pos())}}, raw...)
+			}
+			ns := e2Simplify(raw)
 			x.resolveLocals(ns)
 			e2Canon(ns)
 			return ns, x.undec
@@ -2058,7 +2168,7 @@ func (x *e2Ctx) noLexer(f *ssa.Function, enc bool) []*e2Node {
 			x.undecided("encoder without Lexer and without result in " + shortName(f))
 			return nil
 		case 1:
-			return append(alts[0], &e2Node{kind: "ret", note: "enc"})
+			return append(e2Simplify(alts[0]), &e2Node{kind: "ret", note: "enc"})
 		}
 		cur := alts[0]
 		for _, a := range alts[1:] {
@@ -2458,6 +2568,9 @@ func varargsInOrder(al *ssa.Alloc) []ssa.Value {
 // appendAccumulator: the encoder returns (on every path) a local []byte that starts empty and is only ever extended by
 // append / binary.BigEndian.AppendUintN inside the function, with at least one such extension in a loop: the set of SSA
 // values that make up that accumulator. nil when the function is not of this form.
+// accLiteral: the literal an append-built result starts from, per function (set by appendAccumulator)
+var accLiteral = map[*ssa.Function]ssa.Value{}
+
 func appendAccumulator(f *ssa.Function) map[ssa.Value]bool {
 	acc := map[ssa.Value]bool{}
 	ok := true
@@ -2478,6 +2591,21 @@ func appendAccumulator(f *ssa.Function) map[ssa.Value]bool {
 				ok = false
 			}
 			acc[v] = true
+		case *ssa.Slice:
+			// the accumulator starts from a literal []byte{a, b}: its elements are the first slots
+			if al, isAl := t.X.(*ssa.Alloc); isAl && al.Comment == "slicelit" && t.Low == nil && t.High == nil {
+				acc[v] = true
+				accLiteral[al.Parent()] = v
+			} else if isAl && al.Comment == "makeslice" && t.Low == nil && t.High != nil {
+				// make([]byte, 0, K) with constant K: an empty accumulator with room
+				if k, isK := intConst(t.High); isK && k == 0 {
+					acc[v] = true
+				} else {
+					ok = false
+				}
+			} else {
+				ok = false
+			}
 		case *ssa.Phi:
 			acc[v] = true
 			for _, e := range t.Edges {
